@@ -141,6 +141,19 @@ func c05RunRaw(cs c05Case) (fs []F) {
 			fail("depends-on-destination", "converting source value %v alone gives %v into a destination holding 77 but %v into one holding 33", v, want, w2)
 			break
 		}
+		// ... nor on the destination already holding something that compares equal to the result (both zeros)
+		zeros := []dyn.Val{dyn.Tok(d, 0)}
+		if dyn.Types[d].Kind == dyn.Float {
+			zeros = append(zeros, dyn.F(math.Copysign(0, -1)))
+		}
+		for _, z := range zeros {
+			d1.SetSample(0, z)
+			dyn.Conv(s1, d1)
+			if w3 := d1.Sample(0); !sameBits(w3, want) {
+				fail("depends-on-destination", "converting source value %v (bits %#x) alone gives %v (bits %#x) into a destination holding 77 but %v (bits %#x) into one holding %v (bits %#x)", v, v.B, want, want.B, w3, w3.B, z, z.B)
+				break
+			}
+		}
 		if !sameBits(g, want) {
 			fail("positionwise", "result %d is %v but converting source sample %d (%v) alone gives %v", k, g, k, v, want)
 			break
@@ -177,11 +190,13 @@ func init() {
 			contextPasses := func() {
 				t1 := time.Now()
 				defer func() { phases["context_passes_s"] = time.Since(t1).Seconds(); c.Set("phase_seconds", phases) }()
-				ctxPasses(c, "C05", nil, true, all)
 				if core.Reversed() {
+					ctxPasses(c, "C05", nil, true, all)
 					return
 				}
-				if res := c.ReverseOrderPass("mc-shim"); res != nil {
+				wait := c.ReverseOrderPassAsync("mc-shim") // a process of its own, meanwhile
+				ctxPasses(c, "C05", nil, true, all)
+				if res := wait(); res != nil {
 					ctxCompareDigests(c, digests, res.Digests)
 				}
 			}
